@@ -34,10 +34,10 @@ fn children(t: Tier) -> Vec<Child> {
 fn plan(cfg: &RunCfg) -> EncPlan {
     let mut p = EncPlan::new(&ALL_FORMS);
     p.len_max = 262;
-    p.len_reps = cfg.pick(1, 30) as u32;
+    p.len_reps = cfg.pick(4, 30) as u32;
     p.extra_lens = vec![300, 508, 512, 516, 600];
     p.max_body = 255;
-    p.random_per_form = cfg.pick(4000, 400_000);
+    p.random_per_form = cfg.pick(20_000, 400_000);
     p.param_sweep_reps = cfg.pick(2, 40) as u32;
     p.addr_sweep_reps = cfg.pick(1, 10) as u32;
     if cfg.part == "rel" {
